@@ -3,10 +3,14 @@
 //
 //	race <cases.json>
 //
-// For every case: the single-threaded observations of every call sequence are computed on one
-// instance of the document; then, `repeat` times, a FRESH instance is built and 16 (= number of
-// sequences) goroutines run their sequences on it at the same time; every goroutine's observations
-// must equal the single-threaded ones.  A data race makes the runtime print its report and exit 66.
+// For every case: `repeat` times, a FRESH instance of the document is built and 16 (= number of
+// sequences) goroutines run their sequences on it at the same time — the concurrent readers are the
+// FIRST to read the document and the first in this process to use the paths / child names of the
+// case (nothing is resolved single-threaded beforehand, so state that a read path initialises or
+// memoises lazily, in the document or anywhere else, is initialised under concurrency).  Only
+// AFTERWARDS the single-threaded observations of every call sequence are computed, on yet another
+// fresh instance; every goroutine's observations must equal them.  A data race makes the runtime
+// print its report and exit 66.
 package main
 
 import (
@@ -46,15 +50,11 @@ func main() {
 	for i, cs := range cases {
 		fmt.Printf("CASE %d\n", i)
 		os.Stdout.Sync()
-		ref := c20lib.Build(cs.Origin, cs.D1, cs.D2)
-		single := make([]string, len(cs.Seqs))
-		for g, seq := range cs.Seqs {
-			single[g] = hashObs(ref, seq)
-		}
 		rep := cs.Repeat
 		if rep < 1 {
 			rep = 1
 		}
+		all := make([][]string, rep)
 		for r := 0; r < rep; r++ {
 			subj := c20lib.Build(cs.Origin, cs.D1, cs.D2)
 			got := make([]string, len(cs.Seqs))
@@ -70,6 +70,15 @@ func main() {
 			}
 			close(start)
 			wg.Wait()
+			all[r] = got
+		}
+		// the single-threaded reference, computed after the concurrent rounds
+		ref := c20lib.Build(cs.Origin, cs.D1, cs.D2)
+		single := make([]string, len(cs.Seqs))
+		for g, seq := range cs.Seqs {
+			single[g] = hashObs(ref, seq)
+		}
+		for _, got := range all {
 			for g := range got {
 				if got[g] != single[g] {
 					fmt.Printf("MISMATCH %d %d %s %s\n", i, g, single[g], got[g])
